@@ -53,7 +53,7 @@ def anyOp {σ ο : Type} : σ → ο → Bool := fun _ _ => true
 
 /-- Vary / Allow / Content-Language, members of ANY text (Unicode, quotes, commas, …) without
 CR/LF: for every history, under `HeaderSet.Inv` of the fetched views and non-colliding item
-assignments (`hsOk`; F08b / F08c otherwise), the held view equals the re-read property whenever it
+assignments (`hsOk`; F08b otherwise; since repair 1a2e0e6 every fetched view satisfies the invariant), the held view equals the re-read property whenever it
 is in sync, and the invariant is kept. The codec round trip is `parseSet_dump` (C06). -/
 theorem view_coherent_set (name : Str) (evs : List (Ev HS.Op)) (s : S HS.St)
     (hI : HS.Inv s.v) (hs : s.synced = true → hsEq (SetView.load s.h name) s.v = true)
@@ -519,6 +519,16 @@ theorem repaired_regressions :
       = "basic".toList ∧
     Auth.load (next authFamily ⟨[], ⟨"bearer".toList, [], some "abc".toList⟩, true⟩ (.view (.setType "Basic".toList))).h
       = (next authFamily ⟨[], ⟨"bearer".toList, [], some "abc".toList⟩, true⟩ (.view (.setType "Basic".toList))).v := by
+  decide +kernel
+
+/-- the C16 face of F08c (repaired by 1a2e0e6): a view over `Vary: Cookie, cookie` has ONE member;
+`del view[0]` empties it and removes the header, and the re-read view equals the held one (it used
+to delete the header while an item remained) -/
+theorem set_view_case_duplicates_regression :
+    SetView.load [("Vary".toList, "Cookie, cookie".toList)] "Vary".toList = ⟨["Cookie".toList], ["cookie".toList]⟩ ∧
+    (let s := next (setFamily "Vary".toList) ⟨[("Vary".toList, "Cookie, cookie".toList)],
+        SetView.load [("Vary".toList, "Cookie, cookie".toList)] "Vary".toList, true⟩ (.view (.delitem 0))
+     s.h = [] ∧ s.v = ⟨[], []⟩ ∧ SetView.load s.h "Vary".toList = s.v) := by
   decide +kernel
 
 /-! ## typed get / set of the scalar properties -/
